@@ -22,8 +22,8 @@ def sched_cfg(maxj, maxn, g, coes, cancel, outcomes, dup=False, inv=INV_ALL, pro
 # name -> (config text, timeout); measured wall times in comments (16 workers)
 SPEC_CFGS = {
     # quick configurations: every DAG of 3 jobs
-    "q_ff":   sched_cfg(3, 2, 0, ["FALSE"], True, ["ok", "err"]),                       # 0.74 M states, 35 s
-    "q_coe":  sched_cfg(3, 2, 0, ["TRUE"], False, ["ok", "err"], dup=True),
+    "q_ff":   sched_cfg(3, 2, 0, ["FALSE"], True, ["ok", "err"], props="Terminates Refines RefinesCounters"),                       # 0.74 M states, 35 s
+    "q_coe":  sched_cfg(3, 2, 0, ["TRUE"], False, ["ok", "err"], dup=True, props="Terminates Refines RefinesCounters"),
     "q_exit": sched_cfg(3, 2, 3, ["TRUE", "FALSE"], False, ["ok", "goexit"]),
     "q_can":  sched_cfg(3, 2, 0, ["TRUE", "FALSE"], False, ["ok", "cancel"]),
     "q_dup":  sched_cfg(3, 2, 0, ["TRUE", "FALSE"], False, ["ok", "err"], dup=True, props="Refines"),
@@ -51,6 +51,39 @@ def tlc_spec(c, names):
     for n in names:
         c.log("TLC", n)
         c.tlc("Sched", SPEC_CFGS[n], n, workers=16, timeout=3000)
+
+
+def apalache_counters(c):
+    """C19's arithmetic for unbounded numbers of jobs and workers: Apalache discharges Init => IndInv and
+    IndInv /\\ Next => IndInv' of spec/SchedCounters.tla (Sched.tla refines that module: RefinesCounters)."""
+    import shutil as _sh
+    if not _sh.which("apalache-mc"):
+        c.notes.append("apalache-mc not found: the unbounded inductive-invariant step was skipped")
+        return
+    d = os.path.join(c.scratch, "apalache")
+    os.makedirs(d, exist_ok=True)
+    _sh.copy(os.path.join(c.specdir, "SchedCounters.tla"), d)
+    done = 0
+    for init, length in (("CInit", 0), ("IndInv", 1)):
+        try:
+            r = subprocess.run(["timeout", "300", "apalache-mc", "check", "--init=" + init, "--next=CNext", "--inv=IndInv",
+                                "--length=%d" % length, "--out-dir=" + os.path.join(d, "out"), "SchedCounters.tla"],
+                               cwd=d, capture_output=True, text=True, timeout=400)
+        except Exception as e:
+            c.notes.append("apalache-mc did not run (%s): unbounded step skipped" % e)
+            return
+        out = r.stdout + r.stderr
+        if "The outcome is: NoError" in out:
+            done += 1
+        elif "The outcome is: Error" in out:
+            raise Inconclusive("Apalache: IndInv of SchedCounters.tla is not inductive (--init=%s): a result about the design" % init)
+        else:
+            c.notes.append("apalache-mc gave no verdict (--init=%s): %s" % (init, out[-200:]))
+            return
+    c.cov["obligations"] = c.cov.get("obligations", 0) + 2
+    c.cov["discharged"] = c.cov.get("discharged", 0) + done
+    c.cov["checker_cmd"] = "apalache-mc check --init={CInit,IndInv} --next=CNext --inv=IndInv --length={0,1} SchedCounters.tla"
+    c.cov["trusted_base"] = ["apalache 0.58 + z3 (SMT encoding of linear integer arithmetic)", "TLC (refinement Sched => SchedCounters, bounded)"]
 
 
 # ------------------------------------------------------------------ driver
